@@ -52,6 +52,8 @@ def csvToSql (types : List DataType) (srcCols : List Nat) (rec : List Bytes) : O
 row is what `Tuple.Decode` gives back, column by column. -/
 def insertRow (schema : List FieldDef) (cols : List String) (vals : List Val) : Option (List Val) :=
   if cols.length != vals.length then none else
+  -- `checkColumns` (since repair 2046ccc): every name is a column of the table, none is named twice
+  if !(cols.all fun c => schema.any fun fd => fd.name == c) || cols.eraseDups.length != cols.length then none else
   let m : Vals := (cols.zip vals).reverse
   match encodeTuple schema m with
   | .error _ => none
